@@ -102,12 +102,6 @@ def allowTruncate : List (String × String) := [
 
 /-- `notReset` is safe ONLY for these fields.  Justification:
 
-    * `invertedIndexOpaque.fieldAddrs` - read by `AddrForField(fieldID)` for the field ids of
-                     THIS build only; `writeDicts` assigns `fieldAddrs[fieldID]` for every
-                     `fieldID` of `DictKeys` (= every field of this build) before
-                     `persistFieldsSection` reads them.  For an empty batch nothing is assigned
-                     and the single record read (`_id`) lands at offset 0, which the loader takes
-                     for absent (D3; shown in the builder model).  `Merge` replaces the map.
     * `synonymIndexOpaque.thesaurusAddrs` - read only through `FieldIDtoThesaurusID`, which IS
                      reset (`setNil`: `AddrForField` then returns 0) and is refilled by this
                      build's `getOrDefineThesaurus`; `writeThesauri` assigns every thesaurus id
@@ -125,7 +119,6 @@ def allowTruncate : List (String × String) := [
     * `chunkedContentCoder.w`, `progressiveWrite` - configuration fixed by the constructor; a
                      coder lives within one `writeDicts` call (one writer), never across builds. -/
 def allowNotReset : List (String × String) := [
-  ("invertedIndexOpaque", "fieldAddrs"),
   ("synonymIndexOpaque", "FieldsMap"), ("synonymIndexOpaque", "thesaurusAddrs"),
   ("vectorIndexOpaque", "lastNumVecs"), ("vectorIndexOpaque", "lastNumFields"),
   ("chunkedIntCoder", "chunkSize"), ("chunkedIntCoder", "buf"),
